@@ -477,7 +477,7 @@ func judge(c *run.Ctx, rg *rig, pos *position, cs *caseSpec, p *plan, items []*i
 			sqlOf = of.Stmts[sc.Stmt].SQL
 		}
 		hasTs := wi.HasTsLo || wi.HasTsHi
-		hasDate := wi.HasDateLo || wi.HasDateHi
+		hasDate := wi.HasDateLo || wi.HasDateHi || wi.DateSet != nil
 		asData := dataTables[tn]
 		if tn == "tempo_traces_attrs_gin" && !hasTs && hasDate && pos.Name == "tempo.search.tags" && !cs.Var.TempoV2 {
 			// schema before tempo_v2: the attribute table has no usable timestamp, it is read as a
@@ -549,6 +549,14 @@ func judge(c *run.Ctx, rg *rig, pos *position, cs *caseSpec, p *plan, items []*i
 					}
 					if wi.HasDateHi && m.Date > wi.DateHi {
 						side = "upper"
+					}
+					if wi.DateSet != nil && !wi.DateSet[m.Date] {
+						side = "upper"
+						for d := range wi.DateSet {
+							if d > m.Date {
+								side = "lower" // a listed day lies after the probe's: the list starts too late or has a hole
+							}
+						}
 					}
 					if side == "" {
 						continue
@@ -841,6 +849,14 @@ func boundsText(wi whereInfo) string {
 }
 
 func dateBoundsText(wi whereInfo) string {
+	if wi.DateSet != nil {
+		var ds []string
+		for d := range wi.DateSet {
+			ds = append(ds, dateStr(d))
+		}
+		sort.Strings(ds)
+		return "{" + strings.Join(ds, ", ") + "}"
+	}
 	lo, hi := "-inf", "+inf"
 	if wi.HasDateLo {
 		lo = dateStr(wi.DateLo)
